@@ -464,6 +464,11 @@ impl ConfigActor {
         if let Some(history_table_id) = param.history_table_id {
             self.sequence.set_valid_last_id(history_table_id);
         }
+        // The batch marker travels only in the entry that opens a batch; when that entry is not
+        // committed (its leader was cut off) the other nodes never learn of the batch, and a node
+        // that regains leadership continues in a batch whose ids another leader has used
+        // meanwhile. Every applied history id moves the local sequence past it.
+        self.sequence.mark_used(param.history_id);
         if let Some(v) = self.cache.get_mut(&param.key) {
             let md5 = get_md5(param.value.as_str());
             if let Some(s) = param.config_type {
